@@ -6,11 +6,13 @@ from props._fa_common import TRUSTED, ASSUMPTIONS, TECHNIQUE
 PROP = "C01"
 LEVEL = "proof"
 THEOREMS = {"Properties.C01": ["C01_accepts", "C01_accepts_nfa", "C01_accepts_dfa", "C01_remove_eps",
-                               "C01_determinize", "C01_equiv_certificate", "C01_determinize_total"]}
+                               "C01_determinize", "C01_equiv_certificate", "C01_determinize_total", "C01_minimize_model"]}
 LEVEL_TEXT = ("Machine-checked Coq theorems (no axioms, all automata, all words): accepts = existence of a run (three class loops), "
               "remove_epsilon_transitions and the subset construction preserve the language and have the advertised shape. "
-              "minimize and copy have no universal theorem yet: every automaton pyformlang returns is certified language-equal to its "
-              "input by the proved-sound equivalence checker (instance-level certificate). Model tied to /repo by correspondence on every run.")
+              "minimize is modelled by its specification (live states grouped by language equivalence, quotient) and proved language-preserving "
+              "and deterministic for every DFA (C01_minimize_model; reducedness and canonicity under C02); the Hopcroft worklist and copy are not "
+              "mirrored: every automaton pyformlang returns is certified language-equal to its input by the proved-sound equivalence checker "
+              "(instance-level certificate). Model tied to /repo by correspondence on every run.")
 LEVEL_NOTE = ("Trusted: Coq kernel; hand-written model (validated by correspondence, not derived from source); Python harness. "
               "Theorems are about the model; merged-state *names* are not modelled (subsets are the model's states), so a name collision "
               "in pyformlang shows up as a language difference found by the correspondence leg.")
@@ -39,15 +41,34 @@ def generate(ctx):
         cases.append({"op": op, "fa": spec, "maxlen": 3 if ctx.tier == "quick" else 4})
     for i in range(150 if ctx.tier == "quick" else 1500):
         cases.append(fa_engine.rand_history(ctx.rng))
+    # search stage for minimize (refinement-order defects show on about one mid-sized DFA in 400-1000): many DFAs minimised and
+    # pre-filtered in the workers, the suspects judged like any other case
+    for _ in range(6 if ctx.tier == "quick" else 48):
+        cases.append({"op": "hopcroft_search", "seed": ctx.rng.randrange(10 ** 9), "count": 400, "fa": {"states": [], "profile": "search"}})
     return cases
 
 
 def impl(case):
+    if case["op"] == "hopcroft_search":
+        return fa_engine.hopcroft_search(case)
     return fa_engine.impl_case(case)
 
 
 def check_cases(ctx, cases):
-    fa_engine.check_cases(ctx, "c01", cases)
+    search = [c for c in cases if c["op"] == "hopcroft_search"]
+    rest = [c for c in cases if c["op"] != "hopcroft_search"]
+    if search:
+        obs = ctx.impl("c01", search, timeout=300)
+        for c, o in zip(search, obs):
+            if "timeout" in o or "exc" in o:
+                ctx.fail("hopcroft-search-exception", c, {"impl": o})
+                continue
+            ctx.count(o["tried"])
+            ctx.dist["hopcroft_search: DFAs (5-8 states) minimised and pre-filtered in Python"] += o["tried"]
+            for spec in o["suspects"]:
+                ctx.dist["hopcroft_search: suspects sent to the certified judge"] += 1
+                rest.append({"op": "minimize", "fa": spec, "maxlen": 3, "found_by": "hopcroft_search"})
+    fa_engine.check_cases(ctx, "c01", rest)
 
 
 shrink_candidates = fa_engine.shrink_candidates
